@@ -87,8 +87,9 @@ def main(pid):
                                                             "parallel": False, "yp": "none", "paren": "none", "term": "dot", "trail": "sentence"})
     minimal_short = next(s for s in shapes if s["shape"] == {"form": "short", "lead": "in", "parties": "ante", "preyear": False, "pin": "p",
                                                              "parallel": False, "yp": "none", "paren": "none", "term": "dot", "trail": "sentence"})
-    reps = [x for x in db["reporters"] if x["plain"]]
-    # editions (with the plain template) that reporters-db lists the string for, as a name or a variation
+    reps = [x for x in db["reporters"] if x["minimal"]]
+    plain_strings = {x["string"] for x in reps if x["plain"]}
+    # editions (whose reporters-db templates admit the minimal form) that the database lists the string for
     assoc = {}
     for x in reps:
         assoc.setdefault(x["string"], set()).add(x["edition"])
@@ -105,7 +106,8 @@ def main(pid):
             continue
         seen.add(x["string"])
         base = dict(pool[0], R=x["string"], vol="12", page="345", editions=assoc.get(x["string"], []), check_editions=True)
-        add(minimal_full["shape"], minimal_full["exp"], dict(base, groups={"volume": "12", "reporter": x["string"], "page": "345"}), "db-full", True)
+        g = {"volume": "12", "reporter": x["string"], "page": "345"} if x["string"] in plain_strings else {"reporter": x["string"], "page": "345"}
+        add(minimal_full["shape"], minimal_full["exp"], dict(base, groups=g), "db-full", True)
         add(minimal_short["shape"], minimal_short["exp"], dict(base, shortcomma=False), "db-short", True)
     obs = vlib.impl_map("drv_extract", "run_forms", items)
     traces = []
@@ -114,6 +116,9 @@ def main(pid):
         if o.get("ties"):
             for e in ex:
                 e["check_editions"] = False
+                # a second pattern with a different group structure matches the same characters:
+                # which reading of the reporter wins is not fixed by the property
+                e["groups"] = {k: v for k, v in e["groups"].items() if k == "page"}
             skipped_ties += 1
         traces.append({"text": [ord(c) for c in it["text"]], "exp": ex, "obs": o["obs"], "raised": o["raised"]})
     fails, _ = tlc_judge("Trace_Forms", "Trace_Forms.cfg", traces, ev, "forms", chunk=6000)
